@@ -695,16 +695,18 @@ fn build_vp09_fmp4(config: &FragmentConfig) -> Vec<u8> {
 }
 
 fn build_vpcc_fmp4(config: &FragmentConfig) -> Vec<u8> {
+    // VPCodecConfigurationBox: FullBox(version 1, flags 0) followed by the record.
     let mut payload = Vec::new();
     if let Some(vp9_config) = &config.vp9_config {
-        payload.push(1); // version
-        payload.push(vp9_config.profile); // profile
-        payload.push(vp9_config.level); // level
-        payload.push(vp9_config.bit_depth); // bit_depth
-        payload.push(vp9_config.color_space); // color_space
-        payload.push(vp9_config.transfer_function); // transfer_function
-        payload.push(vp9_config.matrix_coefficients); // matrix_coefficients
-        payload.push(vp9_config.full_range_flag); // full_range_flag
+        payload.extend_from_slice(&0x0100_0000_u32.to_be_bytes()); // version 1, flags 0
+        payload.push(vp9_config.profile);
+        payload.push(vp9_config.level);
+        // bitDepth (4) | chromaSubsampling (3, 1 = 4:2:0 colocated) | videoFullRangeFlag (1)
+        payload.push(((vp9_config.bit_depth & 0x0f) << 4) | (1 << 1) | (vp9_config.full_range_flag & 0x01));
+        payload.push(vp9_config.color_space); // colourPrimaries
+        payload.push(vp9_config.transfer_function); // transferCharacteristics
+        payload.push(vp9_config.matrix_coefficients); // matrixCoefficients
+        payload.extend_from_slice(&0u16.to_be_bytes()); // codecInitializationDataSize
     }
     build_box(b"vpcC", &payload)
 }
